@@ -169,8 +169,9 @@ Qed.
 
 (* ---------- the domain of the refinement theorem ---------- *)
 Definition nonempty (k : path) : bool := match k with [] => false | _ :: _ => true end.
-(* (every part number and every CompleteMultipartUpload part list is inside the domain: what the
-   gateway gets wrong there is covered by triggers 5 and 6) *)
+(* (every part number and every CompleteMultipartUpload part list is inside the domain: the gateway
+   refuses part numbers outside 1..10000 as the specification does; what it gets wrong with the
+   part list is covered by trigger 6) *)
 Definition op_in_domain (o : op) : bool :=
   match o with
   | Put k _ | PutS k _ _ | Get k _ | Del k | MpCreate k => nonempty k
@@ -180,11 +181,23 @@ Definition op_in_domain (o : op) : bool :=
   | MpPut _ _ _ | MpPutS _ _ _ _ | MpComplete _ _ | MpAbort _ | MpList _ => true
   end.
 
-Lemma domain_big_invalid : forall n, (max_part_id <? n) = true -> valid_part n = false.
+(* the gateway's test on a part number is the S3 range *)
+Lemma part_refused_valid : forall n, part_refused n = negb (valid_part n).
 Proof.
-  intros n H. unfold valid_part, in_range. apply N.ltb_lt in H. unfold max_part_id in H.
-  destruct (n <=? 10000) eqn:E; [apply N.leb_le in E; lia|]. apply andb_false_r.
+  intros n. unfold part_refused, valid_part, in_range, max_part_id.
+  destruct (n <? 1) eqn:A; destruct (10000 <? n) eqn:B; destruct (1 <=? n) eqn:C; destruct (n <=? 10000) eqn:D;
+    try reflexivity; exfalso;
+    repeat match goal with
+           | H : (_ <? _) = true |- _ => apply N.ltb_lt in H
+           | H : (_ <? _) = false |- _ => apply N.ltb_ge in H
+           | H : (_ <=? _) = true |- _ => apply N.leb_le in H
+           | H : (_ <=? _) = false |- _ => apply N.leb_gt in H
+           end; lia.
 Qed.
+Lemma domain_big_invalid : forall n, part_refused n = true -> valid_part n = false.
+Proof. intros n H. rewrite part_refused_valid in H. apply negb_true_iff in H. exact H. Qed.
+Lemma domain_small_valid : forall n, part_refused n = false -> valid_part n = true.
+Proof. intros n H. rewrite part_refused_valid in H. apply negb_false_iff in H. exact H. Qed.
 
 (* ---------- the part list of CompleteMultipartUpload ---------- *)
 Lemma nums_eqb_eq : forall a b, nums_eqb a b = true -> a = b.
@@ -292,11 +305,11 @@ Proof.
   destruct Hu as [K1 [K2 [[D1 D2]|[h [H1 [H2 H3]]]]]].
   - rewrite D1 in E. rewrite D2 in Es. injection E as <- <-. injection Es as <- <-. split; [reflexivity|exact HR].
   - rewrite H2 in E. rewrite H3 in Es.
-    destruct (max_part_id <? n) eqn:Emax.
+    destruct (part_refused n) eqn:Emax.
     + rewrite (domain_big_invalid n Emax) in Es. injection E as <- <-. injection Es as <- <-.
       split; [reflexivity|exact HR].
-    + injection E as Hst Hr Hfl. apply flag_nil in Hfl. unfold trig_part_range in Hfl.
-      apply negb_false_iff in Hfl. rewrite Hfl in Es. injection Es as <- <-. rewrite <- Hr.
+    + injection E as Hst Hr. pose proof (domain_small_valid n Emax) as Hfl.
+      rewrite Hfl in Es. injection Es as <- <-. rewrite <- Hr.
       split; [reflexivity|]. rewrite <- Hst.
       split; [exact R1|]. split; [exact R2|].
       unfold set_updir, s_set_parts. cbn [st_ups ss_ups].
@@ -447,7 +460,7 @@ Proof.
     + rewrite D1 in Est. injection Est as <- <-.
       destruct t; [|rewrite s_put_part_dead in Ess by (rewrite Es; left; exact D2)];
         injection Ess as <- <-; (split; [reflexivity|exact HR]).
-    + rewrite H2 in Est. destruct (max_part_id <? n) eqn:Emax.
+    + rewrite H2 in Est. destruct (part_refused n) eqn:Emax.
       * injection Est as <- <-.
         destruct t; [|rewrite s_put_part_dead in Ess
                         by (rewrite Es; right; apply domain_big_invalid; exact Emax)];
@@ -480,7 +493,7 @@ Proof.
       destruct Hnothing as [M [_ ->]]; [|split; [exact M|exact HR]].
       intros d. apply s_put_part_dead. rewrite Es. left. exact D2. }
     rewrite H2 in Est.
-    destruct (max_part_id <? n) eqn:Emax.
+    destruct (part_refused n) eqn:Emax.
     { injection Est as <- <-.
       destruct Hnothing as [_ [M ->]]; [|split; [exact M|exact HR]].
       intros d. apply s_put_part_dead. rewrite Es. right. apply domain_big_invalid. exact Emax. }
@@ -496,14 +509,12 @@ Proof.
       (* the data the model copies, given that it succeeds, is the data of the specification *)
       assert (Hgo : forall data,
                 (set_updir st u up (Some (dir_put (part_name n) (store_body c data) (dir_of c h))), ROk,
-                 flag 2 (is_dir_at (st_store st) src) ++ flag 3 (range_at_end (st_store st) src rg) ++
-                 flag 5 (trig_part_range n)) = (st', r, []) ->
+                 flag 2 (is_dir_at (st_store st) src) ++ flag 3 (range_at_end (st_store st) src rg)) = (st', r, []) ->
                 s_put_part ss u n data = (ss', e) ->
                 meets e r = true /\ R st' ss').
       { intros data E Es'. injection E as Hst Hr Hfl.
-        apply app_eq_nil in Hfl. destruct Hfl as [_ Hfl]. apply app_eq_nil in Hfl. destruct Hfl as [_ F5].
         apply (put_part_refines st ss u n data st' r ss' e); auto.
-        unfold put_part, get_upload. rewrite Eu, H2, Emax. rewrite F5, <- Hst, <- Hr. reflexivity. }
+        unfold put_part, get_upload. rewrite Eu, H2, Emax. rewrite <- Hst, <- Hr. reflexivity. }
       destruct rg as [[a b]|].
       * rewrite Hsz in Est.
         destruct (parse_spec (RClosed a b) (Z.of_N (blen (file_bytes f)))) as [[o l]|] eqn:Ep.
@@ -515,8 +526,7 @@ Proof.
               rewrite Hrd in Est. eapply Hgo; eauto.
            ++ (* parse accepts, the reference does not: the range starts at the end (trigger 3) *)
               exfalso. injection Est as _ _ Hfl.
-              apply app_eq_nil in Hfl. destruct Hfl as [_ Hfl].
-              apply app_eq_nil in Hfl. destruct Hfl as [F8 _].
+              apply app_eq_nil in Hfl. destruct Hfl as [_ F8].
               apply flag_nil in F8. unfold range_at_end in F8. rewrite ?Hfn, ?Ef, ?Hsz in F8.
               apply N.eqb_neq in F8.
               cbn [parse_spec ref_spec] in Ep, Er.
@@ -690,18 +700,52 @@ Theorem complete_list_refuted :
   all2 meets (fst (srun sinit ops)) (fst (fst (run cfg_plain init_state ops))) = false.
 Proof. vm_compute. repeat split; reflexivity. Qed.
 
-(* finding 5: part numbers 0 and 10001 are accepted; ListParts hides part 0; the completed object
-   holds all three parts although S3 refuses two of the uploads and then the completion *)
-Theorem part_range_refuted :
+(* former finding 5 (repaired: PutObjectPartHandler / CopyObjectPartHandler refuse partID < 1 and
+   partID > globalMaxPartID = 10000).  FULL statement, every state and configuration: a part upload,
+   streaming part upload or part copy whose number is outside 1..10000 is answered with an error,
+   raises no trigger and changes nothing *)
+Definition part_op_number (o : op) : option N :=
+  match o with
+  | MpPut _ n _ | MpPutS _ n _ _ | MpCopy _ n _ _ => Some n
+  | _ => None
+  end.
+Definition refusal (r : res) : bool := match r with RErr | RNoUpload => true | _ => false end.
+
+Theorem part_number_range : forall c st o n, part_op_number o = Some n -> valid_part n = false ->
+  exists r, step c st o = (st, r, []) /\ refusal r = true.
+Proof.
+  intros c st o n Ho Hv.
+  assert (Hr : part_refused n = true) by (rewrite part_refused_valid, Hv; reflexivity).
+  destruct o; try discriminate; injection Ho as ->; cbn [step]; unfold put_part;
+    destruct (get_upload st u) as [up|]; try (exists RNoUpload; split; reflexivity);
+    destruct (u_dir up); try (exists RNoUpload; split; reflexivity);
+    rewrite Hr; exists RErr; split; reflexivity.
+Qed.
+
+(* .. and conversely the gateway's own test refuses nothing inside the S3 range: an intact part upload
+   with a number in 1..10000 to a live upload is acknowledged and stored under its part name *)
+Theorem part_number_accepted : forall c st u up d n b,
+  get_upload st u = Some up -> u_dir up = Some d -> valid_part n = true ->
+  step c st (MpPut u n b) =
+    (set_updir st u up (Some (dir_put (part_name n) (store_body c b) d)), ROk, []).
+Proof.
+  intros c st u up d n b Hu Hd Hv. cbn [step]. unfold put_part. rewrite Hu, Hd.
+  assert (Hr : part_refused n = false) by (rewrite part_refused_valid, Hv; reflexivity).
+  rewrite Hr. reflexivity.
+Qed.
+
+(* the former witness of finding 5 (parts 0, 1, 10001; then ListParts, complete, GET): the two
+   out-of-range uploads are refused, ListParts and the object hold part 1 only, no trigger fires and
+   every answer meets the specification *)
+Theorem part_range_repaired :
   let kf := ["f"%string] in
-  let ops := [MpCreate kf; MpPut 0 0 [7]; MpPut 0 1 [1]; MpPut 0 10001 [9]; MpList 0;
-              MpComplete 0 [0; 1; 10001]; Get kf None] in
+  let ops := [MpCreate kf; MpPut 0 0 [7]; MpPut 0 1 [1]; MpPut 0 10001 [9]; MpPut 0 100000 [8]; MpList 0;
+              MpComplete 0 [1]; Get kf None] in
   forallb op_in_domain ops = true /\
   run cfg_plain init_state ops =
-    ([ROk; ROk; ROk; ROk; RParts [(1, 1); (10001, 1)]; ROk; RData [7; 1; 9]], [5; 5],
-     snd (run cfg_plain init_state ops)) /\
-  fst (srun sinit ops) = [EOk; EFail; EOk; EFail; EParts [(1, 1)]; EFail; ENotFound] /\
-  all2 meets (fst (srun sinit ops)) (fst (fst (run cfg_plain init_state ops))) = false.
+    ([ROk; RErr; ROk; RErr; RErr; RParts [(1, 1)]; ROk; RData [1]], [], snd (run cfg_plain init_state ops)) /\
+  fst (srun sinit ops) = [EOk; EFail; EOk; EFail; EFail; EParts [(1, 1)]; EOk; EData [1]] /\
+  all2 meets (fst (srun sinit ops)) (fst (fst (run cfg_plain init_state ops))) = true.
 Proof. vm_compute. repeat split; reflexivity. Qed.
 
 (* the specification of CompleteMultipartUpload, stated on its own: a request that lists uploaded part
